@@ -287,6 +287,13 @@ Definition sym_case (c : case) : bool :=
 Definition check_C05 (c : case) : nat :=
   base_code c + bit (negb (c05_ok (w c) (i_parent c) (i_children c))) 2 + bit (wf_case c && negb (sym_case c)) 4.
 Definition check_C16 (c : case) : nat := base_code c + bit (negb (c16_ok c)) 2.
+(* -x together with -j N: which children have started when the first failure becomes known is a race, so the run model does not
+   apply; what the statement says regardless is evaluated: whatever was set up in any process has been torn down there, the
+   verdict is 'failed' when something bad happened, nothing escaped *)
+Definition check_C16_parallel (c : case) : nat :=
+  bit (negb (negb (i_aborted c)
+             && forallb (c01_proc (w c)) (all_procs c)
+             && (negb (existsb (bad_test c) (flat_map started (all_procs c))) || i_failed c))) 2.
 (* with an injected subprocess fault the lists must say so: an error entry for the layer's subprocess, verdict failed *)
 Definition c12_injected_ok (c : case) : bool :=
   i_failed c && existsb (fun nm => match nm with NSubprocess _ => true | _ => false end) (i_err c) && negb (i_aborted c).
